@@ -423,7 +423,7 @@ def inject(rng, song, kind, p):
             return None
         insert_before(s, p, Tok("{", "bad"))
     elif kind == "unterminated-key":
-        # a key signature without its '}' (an input error since fix 7b882fe)
+        # a key signature without its '}' (an input error since fix 524ebc5)
         insert_before(s, p, Tok(rng.choice(["_{C", "_{+cf", "k{a", "_{", "_{=b "]), "bad"))
     elif kind == "loop-unclosed":
         if t.kind != "le":
@@ -756,7 +756,7 @@ LEVEL_NOTE = ("Trusted: Lean kernel (propext, Classical.choice, Quot.sound at mo
               "per case by the fault-injection oracle only: that conversion actually reaches the faulty command (completeness: 'it is the faulty command "
               "itself when that command is on a channel track'), the clause 'on a track that calls it' in terms of the generator's token map, and "
               "agreement of the models with the C++. Three defects were found and repaired (51fb87b: reference stayed in "
-              "the subroutine after a return; 1763cac: '%n' events carried a stale or no reference; 7b882fe: an unterminated key signature let the read "
+              "the subroutine after a return; 1763cac: '%n' events carried a stale or no reference; 524ebc5: an unterminated key signature let the read "
               "position run two past the end of the line, so a later diagnostic named a column three past it).")
 LEVEL_NOTE = ("Trusted: Lean kernel (propext, Classical.choice, Quot.sound at most), the hand-written models Model/Lexer, Model/Mml (Model/MmlFix is now a "
               "re-export), Model/Player, Model/MdsConv and the wrappers of Model/Refs (agreement with the C++ established by differential testing on "
